@@ -91,6 +91,10 @@ type Parser struct {
 	// infix-based syntax.
 	infixParseFns map[token.Type]infixParseFn
 
+	// lastStatement is the statement that was parsed last (the operand of a
+	// postfix operator is a statement of its own)
+	lastStatement ast.Node
+
 	// postfixParseFns holds a map of parsing methods for
 	// postfix-based syntax.
 	postfixParseFns map[token.Type]postfixParseFn
@@ -356,6 +360,7 @@ func (p *Parser) parseStatement() ast.Node {
 	if p.peekTokenIs(token.SEMICOLON) {
 		p.nextToken()
 	}
+	p.lastStatement = stmt
 	return stmt
 }
 
@@ -1038,8 +1043,11 @@ func (p *Parser) parseNewline() ast.Node {
 
 func (p *Parser) parsePostfix() ast.Statement {
 	// The operand is the token that came before, and it has to be the name
-	// of a variable
-	if p.prevToken.Type != token.IDENT {
+	// of a variable that stands on its own: in `m.y++` and `1 + y++` the
+	// name is the end of a larger expression, which is not what is counted
+	// up
+	name, isName := p.lastStatement.(*ast.Ident)
+	if p.prevToken.Type != token.IDENT || !isName || name.Token() != p.prevToken {
 		p.setTokenError(p.curToken, "the %s operator must follow the name of a variable", p.curToken.Literal)
 		return nil
 	}
